@@ -191,7 +191,8 @@ pub fn run(ctx: &Ctx, rep: &Report) {
         let s = 1_000_000_000u64;
         let d = 86_400 * s;
         let tow: Vec<u64> = vec![0, 5 * s, 18 * s - 1, 18 * s, 20 * s + 1234, d - 1, d + 17 * s, d + 18 * s, 3 * d + 40_000 * s, 6 * d + 17 * s, 6 * d + 18 * s, 6 * d + 19 * s, 7 * d - 110 * s, 7 * d - 1];
-        let len = if thorough { 5 } else { 4 };
+        // dimension runs (debug assertions, logging) repeat the sequences one call shorter
+        let len = if thorough { 5 } else if ctx.dim.is_empty() || ctx.dim == "plain" { 4 } else { 3 };
         let k = tow.len();
         let nseq = (k as u64).pow(len as u32);
         let cnt = std::sync::atomic::AtomicU64::new(0);
